@@ -211,6 +211,14 @@ func miceGrid(args []string) error {
 			st, dg := miEncEvent("r"+strconv.Itoa(id), draft, rs, p)
 			miDecEvent("r"+strconv.Itoa(id)+"d", draft, dg, st, uint64(16384), modes[id%5], 1+l/64+r.Intn(2*rs+2), r, p, true, "honest")
 		}
+		// many records (paths that depend on the number of records): 600 and 1300 records of 1 and 2 bytes
+		for _, c := range [][2]int{{600, 1}, {2600, 2}} {
+			id++
+			p := miPayload(r, c[0])
+			st, dg := miEncEvent("n"+strconv.Itoa(id), draft, c[1], p)
+			miDecEvent("n"+strconv.Itoa(id)+"d", draft, dg, st, uint64(16384), modes[id%5], 64, r, p, true, "honest")
+			miDecEvent("n"+strconv.Itoa(id)+"c", draft, dg, st, uint64(16384), "sniffcopy", 3, r, p, true, "honest")
+		}
 	}
 	return nil
 }
